@@ -42,6 +42,18 @@ MUTATIONS = {
     "c20-fcoll-merge-drops-last-block": (["C20"], F, "merged = reduce(lambda x, y: x.union(y), intervals)", "merged = reduce(lambda x, y: x.union(y), intervals[:-1] or intervals)"),
     "c20-fcoll-primary-seq-first": (["C20"], F, "            return self.get_primary_feature().get_spliced_sequence()", "            return self.feature_intervals[0].get_spliced_sequence()"),
     "c20-fcoll-get-primary-last": (["C20"], F, "        return self.primary_feature\n", "        return self.feature_intervals[-1]\n"),
+    # ---- merges that de-duplicate children by their bounds (seeded change C20-3 and its feature-collection analogue) -
+    "c20-gene-merge-dedup-by-bounds": (["C20"], G, "        for tx in self.transcripts:\n            for i in tx.chromosome_location.blocks:\n                intervals.append(i)\n",
+                                       "        seen = set()\n        for tx in self.transcripts:\n            if (tx.start, tx.end, tx.strand) in seen:\n                continue\n"
+                                       "            seen.add((tx.start, tx.end, tx.strand))\n            for i in tx.chromosome_location.blocks:\n                intervals.append(i)\n"),
+    "c20-gene-merged-cds-dedup-by-bounds": (["C20"], G, "            if tx.is_coding:\n                for i in tx.cds.chromosome_location.blocks:\n                    intervals.append(i)\n",
+                                            "            if tx.is_coding and not any(\n"
+                                            "                o is not tx and o.is_coding and (o.cds.start, o.cds.end, o.strand) == (tx.cds.start, tx.cds.end, tx.strand)\n"
+                                            "                for o in self.transcripts[: self.transcripts.index(tx)]\n            ):\n"
+                                            "                for i in tx.cds.chromosome_location.blocks:\n                    intervals.append(i)\n"),
+    "c20-fcoll-merge-dedup-by-bounds": (["C20"], F, "        for tx in self.feature_intervals:\n            for i in tx.chromosome_location.blocks:\n                intervals.append(i)\n",
+                                        "        seen = set()\n        for tx in self.feature_intervals:\n            if (tx.start, tx.end, tx.strand) in seen:\n                continue\n"
+                                        "            seen.add((tx.start, tx.end, tx.strand))\n            for i in tx.chromosome_location.blocks:\n                intervals.append(i)\n"),
     # ---- AnnotationCollection (collections.py) ---------------------------------------------------------------
     "c20-coll-children-unsorted": (["C20"], A, _CH, _CH.replace("sorted(chain_iter, key=lambda x: x.start)", "list(chain_iter)")),
     "c20-coll-children-by-end": (["C20"], A, _CH, _CH.replace("x.start", "x.end")),
